@@ -517,6 +517,8 @@ def explore(ctx):
                     base_results.setdefault(json.dumps([shape, cfg], sort_keys=True), {})[ch] = result
                 continue
             ctx.count(f"rejected:{kind}:{C.channel_class(ch)}")
+            if kind == "foreign" and len(mut) > 5:
+                ctx.count(f"rejected-and-named:{mut[5]}-name")
             ctx.count(f"rejection-kind:{okind}")
             tot["named" if kind in ("foreign", "leftover") else "required"] += 1
             tag = (kind, C.channel_class(ch))
